@@ -33,7 +33,7 @@ def confirm(cx, lang, cases_path, mism, by_id, label):
             continue
         n += 1
         cx.violation("%s: real outcome differs from Lang.tla: src=%r observed=%s specified=%s" % (
-            label, c["src"][:300], json.dumps(strip(c["obs"]))[:300], specjs[:300]),
+            label + ("/" + c["obs"]["route"] if c["obs"].get("route") else ""), c["src"][:300], json.dumps(strip(c["obs"]))[:300], specjs[:300]),
             {"leg": label, "src": c["src"], "ast": c["ast"], "hoist": c.get("hoist", []),
              "observed": c["obs"], "specified": specjs})
     return n
@@ -54,8 +54,11 @@ def run(cx):
     rejected = 0
     for bi, (depth, budget, cnt, ill) in enumerate(batches):
         cases_path = cx.path("rand%d.ndjson" % bi)
+        # the first batch is evaluated through every host entry point (risor.Eval, parse + compile + vm.New + Run,
+        # risor.EvalCode, risor.Eval with WithVM of a used VM, RunCode twice on one VM): an entry point whose
+        # outcome differs from risor.Eval's supplies the observation
         cx.run([lang, "gen", "-seed", str(cx.seed * 1000 + bi), "-n", str(cnt), "-depth", str(depth),
-                "-budget", str(budget), "-illscoped", str(ill), "-out", cases_path])
+                "-budget", str(budget), "-illscoped", str(ill), "-out", cases_path] + (["-routes"] if bi == 0 else []))
         cases = vlib.read_ndjson(cases_path)
         by_id = {c["id"]: c for c in cases}
         mism, unknown = langlib.tlc_conform(cx, cases, prefix="rand%d" % bi)
